@@ -243,6 +243,11 @@ def check_case(case):
             f.status = np.asarray(p.status).copy()
             f.iterations = np.asarray(p.iterations).copy()
         detail = f'{text!r} entry={entry} t={t} n={n} {SC.opts_text(opts)} bases={run.get("bases")}'
+        if not all(np.all(np.isfinite(np.asarray(p[nm]))) for nm in names):
+            # the preparatory solves left a NaN/inf behind: the statement covers finite data only (Python's min/max and
+            # Fortran's treat a NaN operand differently, for a start)
+            res.tag('skipped:non-finite-starting-state')
+            continue
         if entry == 'evaluate':
             a = R.quiet_call(attempt, p._evaluate, t)
             b = R.quiet_call(attempt, f._evaluate, t)
@@ -384,6 +389,8 @@ def runs_strategy():
     opts = st.fixed_dictionaries({}, optional={
         'min_iter': st.integers(0, 3), 'max_iter': st.sampled_from([0, 1, 2, 5, 40]), 'tol': st.sampled_from([0.5, 1e-6, 1e-10, 2.0 ** -10]),
         'failures': st.sampled_from(['raise', 'ignore']), 'offset': st.sampled_from([0, -1, 1]),
+        # on finite data the numerical-error policy must not matter
+        'errors': st.sampled_from(['raise', 'skip', 'ignore', 'replace']), 'catch_first_error': st.booleans(),
     })
     run = st.fixed_dictionaries({
         'entry': st.sampled_from(['evaluate', 'solve_t', 'solve', 'solve_t']),
